@@ -1,13 +1,14 @@
 B = "reactivex/subject/behaviorsubject.py"
 CASES = [
+    dict(expect="fire", desc="pre-fix: recorded exception tested by truthiness", names="B3-subscribe", edits=[dict(file=B, old="        if ex is not None:", new="        if ex:")]),
     dict(expect="fire", desc="new subscriber not sent current value", names="B3-subscribe", edits=[dict(file=B,
          old="                self.observers.append(observer)\n                observer.on_next(self.value)", new="                self.observers.append(observer)")]),
     dict(expect="fire", desc="value stored after delivery", names="B2-state", edits=[dict(file=B,
          old="            observers = self.observers.copy()\n            self.value = value\n\n        for observer in observers:\n            observer.on_next(value)",
          new="            observers = self.observers.copy()\n\n        for observer in observers:\n            observer.on_next(value)\n        with self.lock:\n            self.value = value")]),
     dict(expect="fire", desc="stopped branch also sends value", names="B3-subscribe", edits=[dict(file=B,
-         old="        if ex:\n            observer.on_error(ex)\n        else:\n            observer.on_completed()",
-         new="        if ex:\n            observer.on_error(ex)\n        else:\n            observer.on_next(self.value)\n            observer.on_completed()")]),
+         old="        if ex is not None:\n            observer.on_error(ex)\n        else:\n            observer.on_completed()",
+         new="        if ex is not None:\n            observer.on_error(ex)\n        else:\n            observer.on_next(self.value)\n            observer.on_completed()")]),
     dict(expect="silent", desc="value stored before taking the snapshot", edits=[dict(file=B,
          old="            observers = self.observers.copy()\n            self.value = value", new="            self.value = value\n            observers = self.observers.copy()")]),
 ]
